@@ -416,9 +416,9 @@ type raw struct {
 	dials             int
 	post              bool
 	ev                []string // every event line of the scenario in order (multi-dial scenarios)
-	outcome           string // class of the returned error / "ready"; "" when the process died
-	fatal             string // "crash:<fn>" | "hang:<fn>" when the process died / hung in this scenario
-	slow              bool   // the scenario took longer than slowScenario
+	outcome           string   // class of the returned error / "ready"; "" when the process died
+	fatal             string   // "crash:<fn>" | "hang:<fn>" when the process died / hung in this scenario
+	slow              bool     // the scenario took longer than slowScenario
 }
 
 var gocqlFrameRe = regexp.MustCompile(`^github\.com/gocql/gocql\.(.+)\(.*\)$`)
